@@ -20,6 +20,9 @@ typedef struct {
   int         judge_dup;
   int         judge_rcode; /* 0: header rcode line is not compared (OPT misplaced / repeated) */
   int         tcp_variants; /* how many (p, consumed) placements to try */
+  int         uncontrolled_placement; /* the workload does not control where names first appear: a
+                                       * message over 16 KiB may repeat a name introduced beyond
+                                       * offset 16383 (known finding, tagged big16k-late) */
   /* results for fingerprints / counters */
   size_t wlen;
   size_t nptr;
@@ -72,16 +75,85 @@ static void rt_set_rcode_line(vh_sb_t *sb, const char *val)
   sb->len = sb->len + nl - ol;
 }
 
-/* does any name held by the record have presentation text of 512 octets or more?  (the writer
- * copies names into a 512-octet buffer: trigger of a known finding, see codec.json) */
+/* octets the presentation name needs on the wire (no 255 cap); 0 if the text is malformed */
+static size_t rt_text_wirelen(const char *text)
+{
+  size_t      wl = 1, ll = 0;
+  const char *p;
+  for (p = text; *p; p++) {
+    if (*p == '.') {
+      if (ll == 0) {
+        return (p == text && p[1] == 0) ? 1 : 0;
+      }
+      wl += ll + 1;
+      ll = 0;
+      continue;
+    }
+    if (*p == '\\') {
+      if (p[1] >= '0' && p[1] <= '9') {
+        if (!(p[2] >= '0' && p[2] <= '9' && p[3] >= '0' && p[3] <= '9')) {
+          return 0;
+        }
+        p += 3;
+      } else if (p[1] == 0) {
+        return 0;
+      } else {
+        p++;
+      }
+    }
+    ll++;
+  }
+  if (ll) {
+    wl += ll + 1;
+  }
+  return wl;
+}
+
+#define RT_HAZ_LONGESC 1 /* some name has presentation text of 512 octets or more (the writer's
+                          * name_copy[512]) */
+#define RT_HAZ_OVER255 2 /* some name needs more than 255 octets on the wire (the parser accepts
+                          * such names when pointers assemble them) */
+#define RT_HAZ_ESCDOT  4 /* some name has an escaped dot inside a label: the writer's suffix
+                          * search compares presentation text and takes the '.' of "\\." for a
+                          * label boundary */
+static int rt_name_hazard(const char *n)
+{
+  int h = 0;
+  if (n == NULL) {
+    return 0;
+  }
+  if (strlen(n) >= 512) {
+    h |= RT_HAZ_LONGESC;
+  }
+  if (rt_text_wirelen(n) > 255) {
+    h |= RT_HAZ_OVER255;
+  }
+  {
+    const char *p;
+    for (p = n; *p; p++) {
+      if (*p == '\\') {
+        if (p[1] == '.') {
+          h |= RT_HAZ_ESCDOT;
+        }
+        if (p[1] >= '0' && p[1] <= '9' && p[2] && p[3]) {
+          p += 3;
+        } else if (p[1]) {
+          p++;
+        }
+      }
+    }
+  }
+  return h;
+}
+
 static int rt_has_long_text(const ares_dns_record_t *rec)
 {
   size_t i, k;
-  int    sec;
+  int    sec, h = 0;
   for (i = 0; i < ares_dns_record_query_cnt(rec); i++) {
     const char *n = NULL;
-    if (ares_dns_record_query_get(rec, i, &n, NULL, NULL) == ARES_SUCCESS && n && strlen(n) >= 512) {
-      return 1;
+    if (ares_dns_record_query_get(rec, i, &n, NULL, NULL) == ARES_SUCCESS) {
+      h |= rt_name_hazard(n);
     }
   }
   for (sec = ARES_SECTION_ANSWER; sec <= ARES_SECTION_ADDITIONAL; sec++) {
@@ -90,21 +162,29 @@ static int rt_has_long_text(const ares_dns_record_t *rec)
       size_t                   nk = 0;
       const ares_dns_rr_key_t *keys;
       const char              *n = ares_dns_rr_get_name(rr);
-      if (n && strlen(n) >= 512) {
-        return 1;
-      }
+      h |= rt_name_hazard(n);
       keys = ares_dns_rr_get_keys(ares_dns_rr_get_type(rr), &nk);
       for (k = 0; keys && k < nk; k++) {
         if (ares_dns_rr_key_datatype(keys[k]) == ARES_DATATYPE_NAME && keys[k] != ARES_RR_URI_TARGET) {
-          const char *s = ares_dns_rr_get_str(rr, keys[k]);
-          if (s && strlen(s) >= 512) {
-            return 1;
-          }
+          h |= rt_name_hazard(ares_dns_rr_get_str(rr, keys[k]));
         }
       }
     }
   }
-  return 0;
+  return h;
+}
+
+static const char *rt_hazard_tag(int h, const char *dflt)
+{
+  if (h & RT_HAZ_OVER255) {
+    return "name-over-255";
+  }
+  /* RT_HAZ_LONGESC used to be tagged "longesc" while the writer truncated such names
+   * (fixed by /repo commit 515995f); it is only counted now */
+  if (h & RT_HAZ_ESCDOT) {
+    return "escdot";
+  }
+  return dflt;
 }
 
 /* where are the OPT RRs?  returns count in ADDITIONAL, *elsewhere = count in other sections */
@@ -290,6 +370,10 @@ static void rt_check(rt_ctx_t *ctx, const ares_dns_record_t *R, vh_rng_t *rng)
   vh_count("rt_written");
   ctx->wrote = 1;
   ctx->wlen  = wlen;
+  if (wlen > 16384 && ctx->uncontrolled_placement && ctx->hazard == NULL) {
+    ctx->hazard = "big16k-late";
+    vh_count("rt_hazard_big16k_uncontrolled");
+  }
   rt_expected_dump(R, ctx, &se);
 
   if (wlen > 65535) {
@@ -438,11 +522,37 @@ static void bld_name_text(vh_rng_t *r, const refdns_name_t *n, int style, char *
     snprintf(out, cap, "%s", style == 0 ? "" : vh_chance(r, 1, 2) ? "" : ".");
     return;
   }
-  if (style == 0 || style == 2) {
-    refdns_name_to_text(n, out, cap - 2);
-    if (style == 2) {
-      strcat(out, ".");
+  if (style == 0) {
+    /* the spelling ares_dns_parse() itself produces (RFC 1035 5.1 master-file conventions:
+     * \DDD outside 0x20..0x7e, backslash before the special characters), so that a built record
+     * is indistinguishable from a parsed one and write(parse(W)) == W can be demanded */
+    for (i = 0; i < n->nlabels; i++) {
+      if (i) {
+        out[o++] = '.';
+      }
+      for (k = 0; k < n->len[i]; k++) {
+        uint8_t c = n->data[off + k];
+        if (o + 6 >= cap) {
+          out[o] = 0;
+          return;
+        }
+        if (c < 0x20 || c > 0x7e) {
+          o += (size_t)snprintf(out + o, cap - o, "\\%03u", c);
+        } else {
+          if (strchr("\".;\\()@$", c)) {
+            out[o++] = '\\';
+          }
+          out[o++] = (char)c;
+        }
+      }
+      off += n->len[i];
     }
+    out[o] = 0;
+    return;
+  }
+  if (style == 2) {
+    refdns_name_to_text(n, out, cap - 2);
+    strcat(out, ".");
     return;
   }
   for (i = 0; i < n->nlabels; i++) {
@@ -780,7 +890,8 @@ static ares_dns_record_t *bld_record(vh_rng_t *r, bld_info_t *info)
     bn.style          = -1; /* a different legal spelling per name */
     info->mixed_style = 1;
   } else if (c < 20) {
-    bn.style = 1 + (int)vh_below(r, 3);
+    bn.style          = 1 + (int)vh_below(r, 3); /* one non-canonical spelling throughout */
+    info->mixed_style = 1;
   }
   bn.npool = 1 + vh_below(r, 2);
   for (i = 0; i < (int)bn.npool; i++) {
@@ -1105,12 +1216,13 @@ static void mkq_case(vh_rng_t *r)
     status = ares_create_query(text, klass, type, id, rd, &b, &blen, udp);
   }
   vh_count("mkq_calls");
-  if (longesc) {
-    ctx.hazard = "longesc"; /* writer's 512-octet name buffer */
-  } else if (strlen(text) > 255) {
-    ctx.hazard = "text256"; /* writer's compression list refuses presentation text over 255 */
-  } else if (over255) {
+  if (over255) {
     ctx.hazard = "name257"; /* well-formed text that needs 256 or 257 octets on the wire */
+  }
+  if (longesc) {
+    vh_count("mkq_text_512_or_longer");
+  } else if (strlen(text) > 255) {
+    vh_count("mkq_text_over_255");
   }
   if (onion && model_ok) {
     /* docs/ares_create_query.3: ARES_ENOTFOUND for .onion names (RFC 7686) */
